@@ -12,6 +12,7 @@ static std::vector<std::vector<double>> vec_alphabet(int d, bool thorough, bool 
   A.push_back(std::vector<double>(n, 0.0));
   for (int k = 0; k < n; k++) A.push_back(unit(d, k));
   for (int k = 0; k < n; k++) A.push_back(unit(d, k, -2.5));
+  for (int k = 0; k < n; k++) A.push_back(unit(d, k, (k % 2 ? -1.0 : 1.0) * 1.3e308));   // above DBL_MAX/2: nothing in a conversion may add a component to itself
   if (!reduced) for (int k = 0; k < n; k++) for (int l = k + 1; l < n; l++) A.push_back(twohot(d, k, l, 1.0, 2.0));
   for (int w = 0; w < 3; w++) {
     A.push_back(probe(d, w));
@@ -36,7 +37,12 @@ static void check_conversions(int d, const std::vector<double>& c, long long idx
   Mat M = gsl2mat(gm.get()), want = B.tomat(c);
   double e1 = ref::maxabs(M - want);
   if (mag > 0) maxstat("to_matrix_err/tol", e1 / tol);
-  if (!(e1 <= tol)) violation(dsig("GetGSLMatrix:mismatch", d), J().i("d", d).arr("components", c).num("err", e1).num("tol", tol).done());
+  // a single component above DBL_MAX/2 whose matrix is still representable: its own signature (input class), named by the slot
+  bool huge = mag > 8.9e307; int hslot = -1; if (huge) for (size_t k = 0; k < c.size(); k++) if (std::fabs(c[k]) > 8.9e307) hslot = (int)k;
+  if (!(e1 <= tol)) {
+    if (huge && ref::finite(want)) { violation(dsig(fmt("GetGSLMatrix:overflow-although-the-matrix-is-representable:slot=%d", hslot).c_str(), d), J().i("d", d).arr("components", c).done()); return; }   // nothing downstream of a non-finite matrix is judged
+    violation(dsig("GetGSLMatrix:mismatch", d), J().i("d", d).arr("components", c).num("err", e1).num("tol", tol).done());
+  }
   double hd = ref::hermiticity_defect(M);
   if (!(hd <= tol)) violation(dsig("GetGSLMatrix:not-hermitian", d), J().i("d", d).arr("components", c).num("defect", hd).done());
   // second overload writes into a caller matrix
